@@ -446,6 +446,10 @@ async fn proxy_tcp_connection_data_forwarding(
             );
         }
 
+        // The stream's inbound direction has ended: pass the end of stream on to the target
+        // (the split write half does not shut the socket down when it is dropped).
+        let _ = outbound_write.shutdown().await;
+
         tracing::debug!(
             "[Proxy-Task1] Task completed for stream {} after {} iterations",
             stream_id,
